@@ -61,6 +61,17 @@ func (s Spec) name(i int) string {
 	return s.Names[i%len(s.Names)]
 }
 
+// NameIndex is the index into Names that a record or question index i denotes (-1: empty pool).
+func (s Spec) NameIndex(i int) int {
+	if len(s.Names) == 0 {
+		return -1
+	}
+	if i < 0 {
+		i = -i
+	}
+	return i % len(s.Names)
+}
+
 func printable(b []byte) string {
 	const al = "abcdefghijklmnopqrstuvwxyzABCDEFGHIJKLMNOPQRSTUVWXYZ0123456789 -_=+/.,:"
 	o := make([]byte, len(b))
@@ -190,6 +201,10 @@ type Opts struct {
 	NoOPT      bool
 	MaxExtra   int // hard cap on additional records, 0 = none
 	PlainNames bool
+	// ShrinkSmall mirrors the shape draw, so that the draw 0 - where rapid's shrinking ends up - is the
+	// ordinary small message and not the one with 250..300 additional records (every evaluation of a
+	// shrink candidate is then cheap). The distribution of shapes is the same.
+	ShrinkSmall bool
 }
 
 var kinds = []string{"A", "A", "AAAA", "NS", "CNAME", "PTR", "MX", "MX", "TXT", "SOA", "SRV", "UNK"}
@@ -269,6 +284,9 @@ func Gen(t *rapid.T, o Opts) Spec {
 			Class: rapid.SampledFrom([]uint16{1, 1, 3, 254, 255}).Draw(t, "qc")})
 	}
 	shape := rapid.IntRange(0, 19).Draw(t, "shape")
+	if o.ShrinkSmall {
+		shape = 19 - shape
+	}
 	maxData := 40
 	nAn := rapid.IntRange(0, o.MaxSmall).Draw(t, "nan")
 	nNs := rapid.IntRange(0, o.MaxSmall).Draw(t, "nns")
